@@ -368,7 +368,7 @@ func Replay(idx int, c *Case, mode string, out *[]Mismatch) {
 func replay(idx int, c *Case, mode string, out *[]Mismatch) {
 	name := ChainName(c.Chain)
 	prefix := ""
-	if mode == "interleave" || mode == "multi-apply" {
+	if mode == "interleave" || mode == "multi-apply" || mode == "concurrent" {
 		prefix = "reuse-"
 	}
 	secondSub := 1 << 30 // index of the step that re-subscribes the same pipeline object (C12), if any
@@ -381,7 +381,10 @@ func replay(idx int, c *Case, mode string, out *[]Mismatch) {
 			}
 		}
 	}
+	var outMu sync.Mutex
 	add := func(step int, class, detail string) {
+		outMu.Lock()
+		defer outMu.Unlock()
 		p := prefix
 		if step >= secondSub {
 			p = "resub-"
@@ -409,6 +412,9 @@ func replay(idx int, c *Case, mode string, out *[]Mismatch) {
 	if prefix != "" {
 		srcMode = "ctl-unsafe"
 	}
+	if mode == "concurrent" {
+		srcMode = "sync"
+	}
 	build := func(ctl *Ctl) ro.Observable[any] {
 		ctl.Hot = c.Hot
 		var o ro.Observable[any] = ctl.Observable(srcMode, c.Steps)
@@ -428,6 +434,18 @@ func replay(idx int, c *Case, mode string, out *[]Mismatch) {
 		oa := build(ca)
 		ob := build(cb)
 		reps = []*replica{{name: "A", o: oa, ctl: ca, ctlStride: 1, share: 1}, {name: "B", o: ob, ctl: cb, ctlStride: 1, share: 1}}
+	case "concurrent":
+		// C12: SEVERAL goroutines subscribe to the same pipeline object at the same time; every subscription plays the whole script
+		for _, st := range c.Steps[1:] {
+			if st.Do != "push" {
+				return // cases with an Unsubscribe or a second Subscribe are not run in this mode
+			}
+		}
+		ctl := &Ctl{}
+		o := build(ctl)
+		for g := 0; g < 4; g++ {
+			reps = append(reps, &replica{name: fmt.Sprint(g), o: o, ctl: ctl, ctlStride: 1, share: 4})
+		}
 	default:
 		ctl := &Ctl{PanicOnSub: faulty && c.Fault.Stage == -1}
 		reps = []*replica{{name: "", o: build(ctl), ctl: ctl, ctlStride: 1, share: 1}}
@@ -510,7 +528,38 @@ func replay(idx int, c *Case, mode string, out *[]Mismatch) {
 	}
 	cur := func(r *replica) *ctlSub { return r.ctl.nth(r.ctlBase + (r.nsub-1)*r.ctlStride) }
 
-	if mode == "sync" {
+	if mode == "concurrent" {
+		var all []Notif
+		last := c.Steps[len(c.Steps)-1].Exp
+		for _, st := range c.Steps {
+			all = append(all, st.Exp.Log...)
+		}
+		for round := 0; round < 3; round++ {
+			var wg sync.WaitGroup
+			start := make(chan struct{})
+			for _, r := range reps {
+				r := r
+				wg.Add(1)
+				go func() {
+					defer wg.Done()
+					<-start
+					subscribe(r, 0)
+				}()
+			}
+			close(start)
+			wg.Wait()
+			for _, r := range reps {
+				check(r, len(c.Steps)-1, last, all, false)
+			}
+		}
+		s, t := reps[0].ctl.counts()
+		if want := 12 * last.Sub; s != want {
+			add(len(c.Steps)-1, "sub", fmt.Sprintf("source subscribed %d times by 12 subscriptions of the pipeline, expected %d", s, want))
+		}
+		if want := 12 * last.Torn; t != want {
+			add(len(c.Steps)-1, "torn", fmt.Sprintf("source teardown ran %d times after 12 subscriptions of the pipeline, expected %d", t, want))
+		}
+	} else if mode == "sync" {
 		// the whole script is emitted inside Subscribe; only the concatenated log and the final counters are compared
 		r := reps[0]
 		var all []Notif
